@@ -57,6 +57,27 @@ def build_impl(cxx="clang++", extra_flags=SAN_FLAGS, opt="-O1", tag="san"):
     return dst, os.path.join(dst, "libOP2Utility.a")
 
 
+def run_suite_traced():
+    """Build /repo's working tree with the verification hooks (-DOP2UTILITY_VERIF, g++ -O1, no sanitizers), run the repository's own
+    test suite with OP2UTILITY_VERIF_TRACE set and return (path of the recorded ndjson log starting with a Reset event, tests passed)."""
+    dst, _ = build_impl(cxx="g++", extra_flags="", opt="-O1", tag="hooks")
+    raw = os.path.join(scratch(), "suite_trace.raw")
+    if os.path.exists(raw):
+        os.remove(raw)
+    env = dict(os.environ, OP2UTILITY_VERIF_TRACE=raw)
+    r = subprocess.run(["timeout", "1500", "make", "-C", dst, f"-j{NPROC}", "CXX=g++", "CXXFLAGS_EXTRA=-O1 -g  -DOP2UTILITY_VERIF", "check"],
+                       capture_output=True, text=True, env=env)
+    m = re.search(r"\[  PASSED  \] (\d+) tests", r.stdout)
+    passed = int(m.group(1)) if m else 0
+    if not os.path.exists(raw):
+        raise MachineryError("the traced test suite produced no trace:\n" + (r.stdout + r.stderr)[-1500:])
+    log = os.path.join(scratch(), "suite_trace.ndjson")
+    with open(log, "w") as f:
+        f.write(json.dumps({"e": "Reset", "scenario": "repository test suite (make check) with the stream hooks enabled"}) + "\n")
+        f.write(open(raw).read())
+    return log, passed
+
+
 def build_harness(name, srcdir, lib, cxx="clang++", extra_flags=SAN_FLAGS, opt="-O1", tag="san"):
     """Compile harness/<name>.cpp, or every .cpp in harness/<name>/ (in parallel), and link against the library."""
     from concurrent.futures import ThreadPoolExecutor
